@@ -162,6 +162,12 @@ def run(ctx):
         "known_findings_reproduced": dict(verdict.known),
     }
     rc = verdict.finish()
+    for k, n in sorted(extra_obs.items()):
+        print("OBSERVATION (outside the statement's list, not a verdict): property=C20 %s x%d" % (k, n), flush=True)
+    npanic = coverage["client_panics"]
+    if npanic:
+        print("OBSERVATION (C09/C17 territory, not a verdict): a light block with a malformed commit block id served by the "
+              "primary panics the light client (types.CanonicalizeBlockID) x%d" % npanic, flush=True)
     ctx.write_evidence(coverage, [
         "hashes and signatures symbolic: SHA-256 collision-free, ed25519 unforgeable and deterministic",
         "the light client itself is correct (C09): a header in its trusted store is the chain's header; checked on every trace "
